@@ -442,6 +442,11 @@ func cmdCheck(args []string) int {
 		}
 		for _, n := range newly {
 			e.noAssume[n] = true
+			// obligations generated several times (one per exit, per call site in a merged path) carry an
+			// ordinal suffix added after translation; the clause is then not assumed at any of its occurrences
+			if k := strings.LastIndex(n, "#"); k > 0 && strings.Trim(n[k+1:], "0123456789") == "" && !strings.HasSuffix(n[:k], ":") {
+				e.noAssume[n[:k]] = true
+			}
 		}
 		unmasked = append(unmasked, newly...)
 		if rc := generate(); rc != 0 {
